@@ -173,3 +173,239 @@ async fn writeset_enum() {
 	);
 	assert!(failures.is_empty());
 }
+
+// ------------------------------------------------------------------------------------------------
+// C09 bounded check: the REAL range cursor (Transaction::range_with_options -> TransactionRangeIterator
+// over SnapshotIterator / KMergeIterator / memtable + table iterators) against a cursor over the sorted
+// list of live keys inside [lower, upper).
+// Every key gets one of a list of layer patterns over four layers written in this order:
+//   table (flushed), immutable memtable (rotated, not flushed), active memtable, write set of the reading
+//   transaction; each layer holds nothing, a value, or a delete for the key.
+// Bound (stated): `nkeys` keys k1.. with every combination of `patterns` layer patterns; bounds from
+// {absent, k0, k1, k1x, k2, k3, k4, k9} on either side (including empty and inverted ranges); every cursor
+// program of <= `maxlen` calls from {seek_first, seek_last, seek(t) for t in the bound list inside the range,
+// next, prev}; after the cursor has run off an end only seeks are issued.
+#[derive(Clone, Copy, Debug, PartialEq)]
+enum L {
+	N,
+	S,
+	D,
+}
+#[derive(Clone, Copy, Debug, PartialEq)]
+enum CurOp {
+	First,
+	Last,
+	Seek(usize),
+	Next,
+	Prev,
+}
+
+const PATTERNS: [[L; 4]; 12] = [
+	[L::N, L::N, L::N, L::N], // absent
+	[L::S, L::N, L::N, L::N], // only in a table
+	[L::N, L::N, L::S, L::N], // only in the active memtable
+	[L::S, L::N, L::D, L::N], // table value deleted in the memtable
+	[L::N, L::N, L::N, L::S], // only in the write set
+	[L::N, L::S, L::N, L::N], // only in the immutable memtable
+	[L::S, L::D, L::N, L::N], // table value deleted in the immutable memtable
+	[L::S, L::N, L::N, L::D], // table value deleted in the write set
+	[L::S, L::S, L::S, L::N], // three versions
+	[L::D, L::N, L::S, L::N], // tombstone in the table, value above
+	[L::S, L::D, L::S, L::S], // everything
+	[L::N, L::S, L::N, L::D], // immutable value deleted in the write set
+];
+
+async fn cursor_enum_impl(nkeys: usize, npat: usize, maxlen: usize, all_bounds: bool, name: &str) {
+	use crate::{LSMIterator as _, ReadOptions};
+	let bound_list: Vec<Option<Vec<u8>>> = if all_bounds {
+		vec![None, Some(b"k0".to_vec()), Some(b"k1".to_vec()), Some(b"k1x".to_vec()), Some(b"k2".to_vec()), Some(b"k3".to_vec()), Some(b"k4".to_vec()), Some(b"k9".to_vec())]
+	} else {
+		vec![None, Some(b"k1".to_vec()), Some(b"k2".to_vec()), Some(b"k3".to_vec()), Some(b"k9".to_vec())]
+	};
+	let js = |b: &Option<Vec<u8>>| match b {
+		None => "null".to_string(),
+		Some(x) => format!("\"{}\"", String::from_utf8_lossy(x)),
+	};
+	let mut cases = 0u64;
+	let mut nontrivial = 0u64;
+	let mut failures: Vec<String> = Vec::new();
+	let mut samples: Vec<String> = Vec::new();
+	// cursor programs
+	let mut progs: Vec<Vec<CurOp>> = Vec::new();
+	let mut alpha = vec![CurOp::First, CurOp::Last, CurOp::Next, CurOp::Prev];
+	for t in 1..bound_list.len() {
+		alpha.push(CurOp::Seek(t));
+	}
+	for len in 1..=maxlen {
+		for code in 0..alpha.len().pow(len as u32) {
+			let mut p = Vec::new();
+			let mut x = code;
+			for _ in 0..len {
+				p.push(alpha[x % alpha.len()]);
+				x /= alpha.len();
+			}
+			// a program starts with a positioning call
+			if matches!(p[0], CurOp::Next | CurOp::Prev) {
+				continue;
+			}
+			progs.push(p);
+		}
+	}
+	for layout in 0..npat.pow(nkeys as u32) {
+		let mut pats = Vec::new();
+		let mut x = layout;
+		for _ in 0..nkeys {
+			pats.push(PATTERNS[x % npat]);
+			x /= npat;
+		}
+		let dir = tempdir::TempDir::new("verif_c09").unwrap();
+		let tree = TreeBuilder::new().with_path(dir.path().to_path_buf()).build().unwrap();
+		let mut model: std::collections::BTreeMap<Vec<u8>, Vec<u8>> = std::collections::BTreeMap::new();
+		let key = |i: usize| format!("k{}", i + 1).into_bytes();
+		for layer in 0..3usize {
+			let mut any = false;
+			let mut t = tree.begin().unwrap();
+			for (i, p) in pats.iter().enumerate() {
+				match p[layer] {
+					L::N => {}
+					L::S => {
+						let v = format!("v{}_{layer}", i + 1).into_bytes();
+						t.set(key(i), v.clone()).unwrap();
+						model.insert(key(i), v);
+						any = true;
+					}
+					L::D => {
+						t.delete(key(i)).unwrap();
+						model.remove(&key(i));
+						any = true;
+					}
+				}
+			}
+			if any {
+				t.commit().await.unwrap();
+			}
+			match layer {
+				0 => {
+					let _ = tree.flush();
+				}
+				1 => {
+					let _ = tree.core.inner.rotate_memtable();
+				}
+				_ => {}
+			}
+		}
+		let mut tx = tree.begin().unwrap();
+		for (i, p) in pats.iter().enumerate() {
+			match p[3] {
+				L::N => {}
+				L::S => {
+					let v = format!("v{}_ws", i + 1).into_bytes();
+					tx.set(key(i), v.clone()).unwrap();
+					model.insert(key(i), v);
+				}
+				L::D => {
+					tx.delete(key(i)).unwrap();
+					model.remove(&key(i));
+				}
+			}
+		}
+		for lo in &bound_list {
+			for hi in &bound_list {
+				let live: Vec<(Vec<u8>, Vec<u8>)> = model
+					.iter()
+					.filter(|(k, _)| lo.as_ref().map_or(true, |l| *k >= l) && hi.as_ref().map_or(true, |h| *k < h))
+					.map(|(k, v)| (k.clone(), v.clone()))
+					.collect();
+				let mut ro = ReadOptions::new();
+				ro.set_iterate_lower_bound(lo.clone());
+				ro.set_iterate_upper_bound(hi.clone());
+				for p in &progs {
+					// seek targets must lie inside the bounds
+					if p.iter().any(|o| matches!(o, CurOp::Seek(t) if !(lo.as_ref().map_or(true, |l| bound_list[*t].as_ref().unwrap() >= l) && hi.as_ref().map_or(true, |h| bound_list[*t].as_ref().unwrap() < h)))) {
+						continue;
+					}
+					cases += 1;
+					if live.len() >= 2 && p.len() >= 2 {
+						nontrivial += 1;
+					}
+					let run = || -> Option<String> {
+						let mut it = match tx.range_with_options(&ro) {
+							Ok(it) => it,
+							Err(e) => return Some(format!("range_with_options failed: {e}")),
+						};
+						let mut pos: Option<usize> = None; // model cursor
+						for (step, op) in p.iter().enumerate() {
+							if pos.is_none() && matches!(op, CurOp::Next | CurOp::Prev) {
+								break; // off the end: only seeks may follow
+							}
+							let (got, want) = match *op {
+								CurOp::First => (it.seek_first(), if live.is_empty() { None } else { Some(0) }),
+								CurOp::Last => (it.seek_last(), if live.is_empty() { None } else { Some(live.len() - 1) }),
+								CurOp::Seek(t) => {
+									let target = bound_list[t].as_ref().unwrap();
+									(it.seek(target), live.iter().position(|(k, _)| k >= target))
+								}
+								CurOp::Next => (it.next(), pos.and_then(|i| if i + 1 < live.len() { Some(i + 1) } else { None })),
+								CurOp::Prev => (it.prev(), pos.and_then(|i| if i > 0 { Some(i - 1) } else { None })),
+							};
+							pos = want;
+							let real = match got {
+								Err(e) => return Some(format!("call #{step} {:?} failed: {e}", op)),
+								Ok(v) => v,
+							};
+							let real_entry = if real && it.valid() { Some((it.key().user_key().to_vec(), it.value().unwrap_or_default())) } else { None };
+							let want_entry = want.map(|i| live[i].clone());
+							if real != it.valid() || real_entry != want_entry {
+								return Some(format!(
+									"after call #{step} {:?}: cursor is at {:?} (returned {real}, valid {}), the sorted list of live keys says {:?}",
+									op,
+									real_entry.as_ref().map(|(k, v)| (String::from_utf8_lossy(k).to_string(), String::from_utf8_lossy(v).to_string())),
+									it.valid(),
+									want_entry.as_ref().map(|(k, v)| (String::from_utf8_lossy(k).to_string(), String::from_utf8_lossy(v).to_string()))
+								));
+							}
+						}
+						None
+					};
+					let bad = match std::panic::catch_unwind(std::panic::AssertUnwindSafe(run)) {
+						Ok(b) => b,
+						Err(_) => Some("the cursor PANICKED (message on stderr of the driver run)".to_string()),
+					};
+					if let Some(b) = bad {
+						if failures.len() < 5 {
+							failures.push(format!(
+								"{{\"layers_per_key(table,immutable,memtable,writeset)\":\"{:?}\",\"lower\":{},\"upper\":{},\"cursor_program\":\"{:?}\",\"seek_targets\":\"index into the bound list [{}]\",\"mismatch\":{:?}}}",
+								pats,
+								js(lo),
+								js(hi),
+								p,
+								bound_list.iter().map(|b| b.as_ref().map(|x| String::from_utf8_lossy(x).to_string()).unwrap_or("-".into())).collect::<Vec<_>>().join(" "),
+								b
+							));
+						}
+					} else if samples.len() < 3 && live.len() >= 3 && p.len() == maxlen && p.contains(&CurOp::Prev) && p.contains(&CurOp::Next) {
+						samples.push(format!("\"{:?} lower={} upper={} {:?}\"", pats, lo.as_ref().map(|b| String::from_utf8_lossy(b).to_string()).unwrap_or("-".into()), hi.as_ref().map(|b| String::from_utf8_lossy(b).to_string()).unwrap_or("-".into()), p));
+					}
+				}
+			}
+		}
+		drop(tx);
+		let _ = tree.close().await;
+	}
+	println!(
+		"REPLAY-RESULT {{\"driver\":\"transaction::{name}\",\"cases\":{cases},\"distinct_nontrivial\":{nontrivial},\"samples\":[{}],\"failures\":[{}]}}",
+		samples.join(","),
+		failures.join(",")
+	);
+	assert!(failures.is_empty());
+}
+
+#[tokio::test(flavor = "multi_thread", worker_threads = 2)]
+async fn cursor_enum_quick() {
+	cursor_enum_impl(3, 5, 3, false, "cursor_enum_quick").await;
+}
+
+#[tokio::test(flavor = "multi_thread", worker_threads = 2)]
+async fn cursor_enum_thorough() {
+	cursor_enum_impl(3, 12, 3, true, "cursor_enum_thorough").await;
+}
